@@ -1,6 +1,7 @@
 import sympy
 import math
 from collections import defaultdict
+from einx._src.util import _verif
 
 
 class Expression:
@@ -166,6 +167,7 @@ def solve(equations, verbose=False):
     equations = [(_to_expr(t1), _to_expr(t2)) for t1, t2 in equations]
     equations = [(t1, t2) for t1, t2 in equations if t1 != t2]
     equations = list(set(equations))
+    equations = _verif.choose_order(equations, "solver.equations")
     variables = {v.id: v for equation in equations for term in equation for v in term if isinstance(v, Variable)}
 
     # ##### Find equivalence classes of variables to speed up sympy solver #####
